@@ -70,10 +70,16 @@ class SymNd(rnp.ndarray):
 
     def __getitem__(self, k):
         if self._is_mask(k):
-            raise SymbolicBranch("selection by a symbolic mask (array length would be symbolic)")
+            return MaskSel(self, k)
         return rnp.ndarray.__getitem__(self, k)
 
     def __setitem__(self, k, v):
+        if self._is_mask(k) and isinstance(v, MaskSel):
+            if v.mask is not k:
+                raise SymbolicBranch("masked assignment from a selection under a different symbolic mask")
+            for idx in rnp.ndindex(self.shape):
+                rnp.ndarray.__setitem__(self, idx, ite(SB.lift(k[idx]), v.full[idx], rnp.ndarray.__getitem__(self, idx)))
+            return
         if self._is_mask(k):
             vb = rnp.broadcast_to(rnp.asarray(v, dtype=object), self.shape) if not (isinstance(v, rnp.ndarray) and v.shape != self.shape) else None
             if vb is None:
@@ -85,6 +91,26 @@ class SymNd(rnp.ndarray):
 
     def item(self, *a):
         return rnp.ndarray.item(self, *a)
+
+
+class MaskSel:
+    """a[mask] with a symbolic mask: kept at full shape; only usable as the source of b[mask] = ... with the same mask"""
+    def __init__(self, full, mask):
+        self.full, self.mask = full, mask
+
+    def _op(self, o, f, rev=False):
+        other = o.full if isinstance(o, MaskSel) else o
+        return MaskSel(f(other, self.full) if rev else f(self.full, other), self.mask)
+
+    def __add__(self, o): return self._op(o, operator.add)
+    def __radd__(self, o): return self._op(o, operator.add, True)
+    def __sub__(self, o): return self._op(o, operator.sub)
+    def __rsub__(self, o): return self._op(o, operator.sub, True)
+    def __mul__(self, o): return self._op(o, operator.mul)
+    def __rmul__(self, o): return self._op(o, operator.mul, True)
+    def __truediv__(self, o): return self._op(o, operator.truediv)
+    def __rtruediv__(self, o): return self._op(o, operator.truediv, True)
+    def __len__(self): raise SymbolicBranch("length of a selection by a symbolic mask")
 
 
 def _map(f, a, *more):
@@ -99,6 +125,19 @@ def _map(f, a, *more):
     for idx in rnp.ndindex(a.shape):
         out[idx] = f(a[idx])
     return out.view(SymNd)
+
+
+def generic_arange(count):
+    """np.arange(K) for symbolic K as the generic-element array [0, m, m+1, K-1] (valid: element 0 and 3 when K>=1,
+    elements 1,2 when K>=2 with 0<=m<=K-2) -- covers 'first', 'last', 'any element' and 'any consecutive pair' for every K"""
+    run = ctx.cur()
+    cnt = count.t if z3.is_int(count.t) else z3.ToInt(count.t)
+    m = ctx.fresh("arange_m", "int")
+    run.assumptions.append(z3.Implies(cnt >= 2, z3.And(m >= 0, m <= cnt - 2)))
+    if not hasattr(run, "gen_aranges"):
+        run.gen_aranges = []
+    run.gen_aranges.append((cnt, m))
+    return oarr([SR(z3.IntVal(0)), SR(m), SR(m + 1), SR(cnt - 1)])
 
 
 def oarr(items, shape=None):
@@ -319,7 +358,9 @@ class NumpyShim:
 
     def arange(self, *a, **k):
         if any(is_sym(x) for x in a):
-            raise SymbolicBranch("np.arange with a symbolic bound")
+            if len(a) != 1 or not isinstance(a[0], SR):
+                raise SymbolicBranch("np.arange(start, stop) with symbolic bounds")
+            return generic_arange(a[0])
         return rnp.arange(*a, **k)
 
     def stack(self, arrs, axis=0, **k):
